@@ -4,6 +4,8 @@ Input: the harness transcript (`recipe => impl-outcome`, `@…` directives, `#` 
 Output: one `NE …` line per disagreement, then `#stats` / `#regime` lines.
 -/
 import Sds.Driver.Bits
+import Sds.Driver.Vec
+import Sds.Driver.Bv
 
 namespace Sds.Driver
 open Sds Outcome
@@ -11,6 +13,9 @@ open Sds Outcome
 def evalRecipe (st : DState) (toks : List String) : Eval :=
   match toks with
   | "bits" :: rest => evalBits st rest
+  | "raw" :: name :: rest => evalRaw st name rest
+  | "iv" :: name :: rest => evalIv st name rest
+  | "bv" :: name :: rest => evalBv st name rest
   | _ => { st := st, model := "driver:unknown-op" }
 
 structure Stats where
@@ -24,7 +29,7 @@ structure Stats where
 
 def directive (st : DState) (toks : List String) : DState :=
   match toks with
-  | ["@reset"] => { st with objs := {} }
+  | ["@reset"] => st.reset
   | ["@mode", "checked"] => { st with mode := .checked }
   | ["@mode", "wrapping"] => { st with mode := .wrapping }
   | ["@bmi2", b] => { st with bmi2 := b == "1" }
@@ -37,6 +42,7 @@ partial def loop (h : IO.FS.Stream) (st : DState) (stats : Stats) (lineNo : Nat)
   if line.isEmpty || line.startsWith "#" then loop h st stats (lineNo + 1)
   else if line.startsWith "@" then loop h (directive st ((line.splitOn " ").filter (· ≠ ""))) stats (lineNo + 1)
   else
+    let line := if line.endsWith " =>" then line ++ " " else line
     let (recipe, impl) := match line.splitOn " => " with
       | [r, i] => (r, i)
       | [r] => (r, "")
